@@ -263,6 +263,7 @@ func ruleAccessors(c *Ctx, r *Repo, r1, r2, r3 string) {
 	info := tp.TypesInfo
 	ruleNillable(c, r, r3)
 	ruleBracketLists(c, r, r1)
+	ruleSmallAccessors(c, r, r3)
 	const name = "P.Name<(template.Param).Name>()"
 	const ts = "P.TypeString<(template.Param).TypeString>()"
 	lists := []struct{ fn, ranged, elem string }{
@@ -1073,5 +1074,87 @@ func ruleBracketLists(c *Ctx, r *Repo, rule string) {
 			}
 		}
 		c.Check(okFrame, rule, row.fn+"|frame", r.Pos(fd.Pos()), "\"\" without type parameters, closed with \"]\" otherwise", row.fn+" does not return \"\" for an interface without type parameters and the bracketed list otherwise")
+	}
+}
+
+// ruleSmallAccessors (R14.3, added after the mechanical-mutation sweep): Method.ReturnStatement is "return"
+// exactly for methods with results (engine T's table assumes it), evaluated for 0..2 results;
+// Method.AcceptsContext holds exactly when there is a first parameter whose type string is context.Context.
+func ruleSmallAccessors(c *Ctx, r *Repo, rule string) {
+	tp := r.Pkg("template")
+	info := tp.TypesInfo
+	if fd := FuncDecl(tp, "Method.ReturnStatement"); fd == nil {
+		c.Fail(rule, "Method.ReturnStatement|missing", "template/method.go", "Method.ReturnStatement not found")
+	} else {
+		c.Func(funcKey(tp, fd))
+		paths, _ := enumerateFunc(info, fd)
+		ok := len(paths) > 0
+		why := ""
+		for n := 0; n <= 2; n++ {
+			hit := 0
+			for _, p := range paths {
+				cons := true
+				for _, a := range p.Atoms {
+					v, known := lenAtom(a.Expr, "builtin.len(RECV.Returns)", n)
+					if !known {
+						ok, why = false, "decides on "+a.Expr
+					} else if v != a.Val {
+						cons = false
+					}
+				}
+				if !cons {
+					continue
+				}
+				hit++
+				want := `""`
+				if n > 0 {
+					want = `"return"`
+				}
+				if p.Exit != "return" || len(p.Ret) != 1 || p.Ret[0] != want {
+					ok, why = false, fmt.Sprintf("for %d results it yields %v, documented %s", n, p.Ret, want)
+				}
+			}
+			if hit != 1 {
+				ok, why = false, fmt.Sprintf("%d paths for %d results", hit, n)
+			}
+		}
+		c.Check(ok, rule, "Method.ReturnStatement|table", r.Pos(fd.Pos()), "\"return\" iff the method has results", "Method.ReturnStatement: "+why)
+	}
+	if fd := FuncDecl(tp, "Method.AcceptsContext"); fd == nil {
+		c.Fail(rule, "Method.AcceptsContext|missing", "template/method.go", "Method.AcceptsContext not found")
+	} else {
+		c.Func(funcKey(tp, fd))
+		d := newDT(info)
+		d.boolReturns = true
+		d.paths = nil
+		d.stmts(seedEnv(d, fd), fd.Body.List, func(p *dtPath) { d.finish(p, "end") })
+		ok := len(d.paths) > 0
+		why := ""
+		for _, p := range d.paths {
+			has, isCtx, knownHas, knownCtx := false, false, false, false
+			for _, a := range p.Atoms {
+				if v, known := lenAtom(a.Expr, "builtin.len(RECV.Params)", 0); known {
+					// the atom evaluated for an empty list tells "empty"; its negation "has a first parameter"
+					has, knownHas = v != a.Val, true
+					continue
+				}
+				if strings.HasPrefix(a.Expr, "RECV.Params[0].TypeString<") && strings.HasSuffix(a.Expr, `() == "context.Context"`) {
+					isCtx, knownCtx = a.Val, true
+					continue
+				}
+				ok, why = false, "decides on "+a.Expr
+			}
+			want := "false"
+			if knownHas && has && knownCtx && isCtx {
+				want = "true"
+			}
+			if knownCtx && !knownHas {
+				ok, why = false, "reads the first parameter without knowing there is one"
+			}
+			if p.Exit != "return" || len(p.Ret) != 1 || p.Ret[0] != want {
+				ok, why = false, fmt.Sprintf("path %s, documented %s", p.String(), want)
+			}
+		}
+		c.Check(ok, rule, "Method.AcceptsContext|table", r.Pos(fd.Pos()), "true iff the first parameter is a context.Context", "Method.AcceptsContext: "+why)
 	}
 }
